@@ -217,8 +217,6 @@ impl<T: Qcow2IoOps> Qcow2Dev<T> {
         let mut len = buf.len();
         let old_offset = offset;
         let old_len = len;
-        let single =
-            (offset >> info.cluster_bits()) == ((offset + (len as u64) - 1) >> info.cluster_bits());
 
         if offset >= vsize {
             if !info.is_back_file() {
@@ -246,7 +244,8 @@ impl<T: Qcow2IoOps> Qcow2Dev<T> {
 
         log::debug!("read_at: offset {:x} len {} >>>", offset, buf.len());
 
-        let extra = if offset + (len as u64) > vsize {
+        // `offset` is inside the image here, but `offset + len` may still wrap
+        let extra = if offset.checked_add(len as u64).map(|end| end > vsize) != Some(false) {
             // Clamp to the in-image portion: only `vsize - offset` bytes are
             // backed by data, rounded down to a block boundary.
             len = ((vsize - offset) as usize) & !bs_mask;
@@ -263,6 +262,16 @@ impl<T: Qcow2IoOps> Qcow2Dev<T> {
         };
 
         debug_assert!((len & bs_mask) == 0);
+
+        // nothing of the request lies inside the image (partial last block)
+        if len == 0 {
+            return Ok(extra);
+        }
+
+        // computed after the argument checks, when `offset + len - 1` can
+        // neither underflow nor wrap
+        let single =
+            (offset >> info.cluster_bits()) == ((offset + (len as u64) - 1) >> info.cluster_bits());
 
         let done = if single {
             let l2_entry = self.get_l2_entry(offset).await?;
